@@ -244,6 +244,17 @@ def directed(g):
         ('aggregate-nested-in-arithmetic', g.query(A, [ax, g.alias(g.arith('*', g.arith('+', g.agg('sum', ay), one), g.lit(2)), 't')],
                                                    groupby=[ax]), None),
         ('select-star-fully-grouped', g.query(A, groupby=[ax, ay, az, as_]), None),
+    ] + [
+        # grouping by a predicate written with every native comparison operator (lazy proxies for == and <), selected too
+        (f'comparison-grouping-{op}{"-aliased" if aliased else ""}',
+         g.query(A, [g.alias(g.cmp(op, ax, one), 'g') if aliased else g.cmp(op, ax, one), g.alias(g.agg('count', as_), 'n')],
+                 groupby=[g.cmp(op, ax, one)]), None)
+        for op in ('==', '!=', '<', '<=', '>', '>=') for aliased in (True, False)
+    ] + [
+        ('comparison-grouping-differs', g.query(A, [g.alias(g.cmp('==', ax, g.lit(2)), 'g'), g.alias(g.agg('count', as_), 'n')],
+                                                groupby=[g.cmp('==', ax, one)]), 'non-aggregate-outside-grouping'),
+        ('logical-grouping', g.query(A, [g.alias(g.and_(g.cmp('<', ax, one), g.cmp('==', ay, one)), 'g'), g.alias(g.agg('count', as_), 'n')],
+                                     groupby=[g.and_(g.cmp('<', ax, one), g.cmp('==', ay, one))]), None),
         ('select-star-partly-grouped', g.query(A, groupby=[ax]), 'non-aggregate-outside-grouping'),
         ('literal-selected-with-grouping', g.query(A, [ax, g.alias(one, 'one')], groupby=[ax]), 'non-aggregate-outside-grouping'),
         ('reference-of-query', g.query(sub, [qk, qx], where=g.cmp('>', qk, one), orderby=[(qx, 'desc')]), None),
